@@ -66,7 +66,11 @@ Scenarios0 == {[geo |-> 0, terms |-> SetToSeq(T), jp |-> jp, opts |-> op, follow
 TermCat1 == {<<1, s, 1>> : s \in 1..5}
 Scenarios1 == {[geo |-> 1, terms |-> SetToSeq(T), jp |-> jp, opts |-> op, follow |-> f] :
                  T \in {T \in SUBSET TermCat1 : Cardinality(T) \in {4, 5}}, jp \in {<<10, 30>>, <<25, 30>>, <<10, 20>>}, op \in {2, 4, 6, 3}, f \in 0..2}
-Scenarios == Scenarios0 \cup Scenarios1
+\* registration by terminal list instead of by junction (no junction or connector exists beforehand: the rerouter creates them)
+Scen2(g, Cat) == {[geo |-> g, reg |-> 1, terms |-> SetToSeq(T), jp |-> <<0, 0>>, opts |-> op, follow |-> f] :
+                    T \in {T \in SUBSET Cat : Cardinality(T) \in {3, 4}}, op \in {2, 6}, f \in 0..2}
+Scenarios2 == Scen2(0, TermCat) \cup Scen2(1, TermCat1)
+Scenarios == {[geo |-> x.geo, reg |-> 0, terms |-> x.terms, jp |-> x.jp, opts |-> x.opts, follow |-> x.follow] : x \in Scenarios0 \cup Scenarios1} \cup Scenarios2
 GenInit == /\ JsonSerialize(IOEnv.HYPERGEN, SetToSeq(Scenarios)) /\ k = Cardinality(Scenarios) /\ phase = "gen" /\ bad = {}
 GenSpec == GenInit /\ [][UNCHANGED vars]_vars
 =============================================================================
